@@ -1156,10 +1156,14 @@ impl Blockchain {
             return (false, WALLET_NOT_UPDATED);
         }
 
+        #[cfg(saito_verif)]
+        crate::core::verif_hooks::validate_begin();
         if old_chain.is_empty() {
             let mut result: WindingResult =
                 WindingResult::Wind(new_chain.len() - 1, false, WALLET_NOT_UPDATED);
             loop {
+                #[cfg(saito_verif)]
+                crate::core::verif_hooks::validate_step();
                 match result {
                     WindingResult::Wind(current_wind_index, wind_failure, wallet_status) => {
                         wallet_update_status |= wallet_status;
@@ -1202,6 +1206,8 @@ impl Blockchain {
         } else if !new_chain.is_empty() {
             let mut result = WindingResult::Unwind(0, true, old_chain.to_vec(), WALLET_NOT_UPDATED);
             loop {
+                #[cfg(saito_verif)]
+                crate::core::verif_hooks::validate_step();
                 match result {
                     WindingResult::Wind(current_wind_index, wind_failure, wallet_status) => {
                         wallet_update_status |= wallet_status;
